@@ -43,10 +43,12 @@ REQUIRED = {'quick': {'evaluations': 3000, 'prefixes_tried': 5000, 'suffix_check
                       'damaged_streams_info': 300, 'faults_stop_signature': 60, 'faults_descriptor': 60,
                       'faults_section_length': 100, 'no_continue_checks': 150, 'cli_checks': 10,
                       'detectable_damaged_messages': 300},
-            'thorough': {'evaluations': 60000, 'prefixes_tried': 100000, 'suffix_checks': 2000, 'damaged_streams_full': 6000,
-                         'damaged_streams_info': 6000, 'faults_stop_signature': 1000, 'faults_descriptor': 1000,
-                         'faults_section_length': 2000, 'no_continue_checks': 3000, 'cli_checks': 100,
-                         'detectable_damaged_messages': 6000}}
+            'thorough': {'evaluations': 42000, 'prefixes_tried': 49000, 'suffix_checks': 1900, 'damaged_streams_full': 6000,
+                      'damaged_streams_info': 6000, 'faults_stop_signature': 1000, 'faults_descriptor': 1000,
+                      'faults_section_length': 2000, 'no_continue_checks': 3000, 'cli_checks': 100,
+                      'detectable_damaged_messages': 6000}}
+
+
 EXHAUSTIVE = {'quick': False, 'thorough': False}
 EXHAUSTIVE_NOTE = {'quick': 'every truncation point of each pool message; every subset of damaged messages for streams of n<=4',
                    'thorough': 'every truncation point of each pool message; every subset of damaged messages for streams of n<=4'}
